@@ -261,6 +261,48 @@ def mutants_of(prog, q):
             new_src = '\n'.join(lines[:start] + [new_seg] + lines[end:])
             yield (path, new_src, '%s [p-rename-local #%d] PRESERVING rename '
                    '%s -> %s' % (q, i, name, new))
+    if 'p-extract-arg' in KINDS:
+        # "introduce explaining variable": the first call-valued argument of
+        # a call statement / assignment / return gets a name first
+        k = 0
+        cands = []
+        for x in ast.walk(tree):
+            for fld in ('body', 'orelse', 'finalbody'):
+                seq = getattr(x, fld, None)
+                if isinstance(seq, list) and seq and \
+                        isinstance(seq[0], ast.stmt):
+                    for i, st in enumerate(seq):
+                        v = getattr(st, 'value', None)
+                        if isinstance(st, (ast.Expr, ast.Assign,
+                                           ast.Return)) and \
+                                isinstance(v, ast.Call):
+                            for ai, a in enumerate(v.args):
+                                if isinstance(a, ast.Call) and all(
+                                        not any(isinstance(y, ast.Call)
+                                                for y in ast.walk(b))
+                                        for b in v.args[:ai]) and not any(
+                                        isinstance(y, ast.Call)
+                                        for y in ast.walk(v.func)):
+                                    cands.append((x, fld, i, ai))
+                                    break
+        for (bn, fld, i, ai) in cands[:8]:
+            idx = [id(y) for y in ast.walk(tree)].index(id(bn))
+            t = copy.deepcopy(tree)
+            tb = list(ast.walk(t))[idx]
+            seq = getattr(tb, fld)
+            st = seq[i]
+            name = 'extracted_value_%d' % k
+            asg = ast.Assign(targets=[ast.Name(id=name, ctx=ast.Store())],
+                             value=st.value.args[ai])
+            st.value.args[ai] = ast.Name(id=name, ctx=ast.Load())
+            seq.insert(i, asg)
+            ast.fix_missing_locations(t)
+            new_seg = textwrap.indent(ast.unparse(t), ' ' * indent)
+            new_src = '\n'.join(lines[:start] + [new_seg] + lines[end:])
+            yield (path, new_src, '%s [p-extract-arg #%d] PRESERVING '
+                   'argument named first: %s' % (
+                       q, k, ast.unparse(asg.value)[:50]))
+            k += 1
     if 'p-add-log' in KINDS:
         # a logging statement added before the i-th statement of a block
         def blocks(n):
@@ -301,7 +343,7 @@ def mutants_of(prog, q):
             if k >= 12:
                 break
     for kind in KINDS:
-        if kind in ('p-rename-local', 'p-add-log'):
+        if kind in ('p-rename-local', 'p-add-log', 'p-extract-arg'):
             continue
         i = 0
         while True:
